@@ -525,6 +525,153 @@ theorem mstep_audit (env : Env) (st : MSt) (op : MOp) (hc : op.isClear = false) 
   | addSig s => simp [mstep, results, Membrane.addSig]
   | adv d => simp [mstep, results]
 
+/-! ### JSON depth: the early exit of `_measure_depth` does not change the verdict -/
+
+mutual
+/-- nesting depth of a parsed JSON value: scalars 0, a container one more than its deepest child -/
+def depth : J → Nat
+  | .scalar => 0
+  | .node xs => depthMax xs + 1
+def depthMax : List J → Nat
+  | [] => 0
+  | x :: xs => max (depth x) (depthMax xs)
+end
+
+theorem depthMax_ge (xs : List J) : ∀ x ∈ xs, depth x ≤ depthMax xs := by
+  induction xs with
+  | nil => simp
+  | cons y ys ih =>
+    intro x hx
+    simp only [depthMax]
+    rcases List.mem_cons.mp hx with rfl | h
+    · exact Nat.le_max_left _ _
+    · exact Nat.le_trans (ih x h) (Nat.le_max_right _ _)
+
+theorem depthMax_attained (xs : List J) (hne : xs ≠ []) : ∃ x ∈ xs, depth x = depthMax xs := by
+  induction xs with
+  | nil => exact absurd rfl hne
+  | cons y ys ih =>
+    simp only [depthMax]
+    by_cases hys : ys = []
+    · subst hys; exact ⟨y, by simp, by simp [depthMax]⟩
+    · obtain ⟨x, hx, he⟩ := ih hys
+      by_cases hle : depthMax ys ≤ depth y
+      · exact ⟨y, by simp, by rw [Nat.max_eq_left hle]⟩
+      · exact ⟨x, by simp [hx], by rw [he, Nat.max_eq_right (by omega)]⟩
+
+mutual
+theorem measure_gt (md : Nat) : ∀ (t : J) (cur : Nat), measure md t cur > md ↔ cur + depth t > md
+  | .scalar, cur => by simp [measure, depth]
+  | .node xs, cur => by
+    have ih := measureMax_gt md xs (cur + 1)
+    unfold measure
+    split
+    · rename_i h; simp only [depth]; omega
+    · rename_i h
+      cases xs with
+      | nil => simp only [depth, depthMax]
+      | cons y ys =>
+        simp only []
+        rw [ih]
+        simp only [depth]
+        constructor
+        · rintro ⟨x, hx, hd⟩
+          have := depthMax_ge (y :: ys) x hx
+          omega
+        · intro hd
+          obtain ⟨x, hx, he⟩ := depthMax_attained (y :: ys) (by simp)
+          exact ⟨x, hx, by omega⟩
+theorem measureMax_gt (md : Nat) : ∀ (xs : List J) (cur : Nat),
+    measureMax md xs cur > md ↔ ∃ x ∈ xs, cur + depth x > md
+  | [], cur => by simp [measureMax]
+  | x :: xs, cur => by
+    have h1 := measure_gt md x cur
+    have h2 := measureMax_gt md xs cur
+    simp only [measureMax, List.mem_cons, exists_eq_or_imp]
+    rw [← h1, ← h2]
+    omega
+end
+
+/-! ### which signatures are active after learn / import / forget -/
+
+theorem mem_dictSet_self (d : List Sig) (s : Sig) : s ∈ dictSet d s := by
+  unfold dictSet
+  split
+  · rename_i h
+    simp only [List.any_eq_true, decide_eq_true_eq] at h
+    obtain ⟨x, hx, hp⟩ := h
+    exact List.mem_map.mpr ⟨x, hx, by simp [hp]⟩
+  · simp
+
+/-- a key present before `d[s.pat] = s` is present afterwards, carried by the old entry or by `s` -/
+theorem dictSet_key_kept (d : List Sig) (s x : Sig) (hx : x ∈ d) :
+    ∃ y ∈ dictSet d s, y.pat = x.pat ∧ (y = x ∨ y = s) := by
+  unfold dictSet
+  split
+  · by_cases hp : x.pat = s.pat
+    · exact ⟨s, List.mem_map.mpr ⟨x, hx, by simp [hp]⟩, hp.symm, Or.inr rfl⟩
+    · exact ⟨x, List.mem_map.mpr ⟨x, hx, by simp [hp]⟩, rfl, Or.inl rfl⟩
+  · exact ⟨x, by simp [hx], rfl, Or.inl rfl⟩
+
+theorem foldl_dictSet_key_kept (abs : List Sig) : ∀ (d : List Sig) (x : Sig), x ∈ d →
+    ∃ y ∈ abs.foldl dictSet d, y.pat = x.pat ∧ (y = x ∨ y ∈ abs) := by
+  induction abs with
+  | nil => intro d x hx; exact ⟨x, hx, rfl, Or.inl rfl⟩
+  | cons a rest ih =>
+    intro d x hx
+    obtain ⟨y, hy, hyp, hor⟩ := dictSet_key_kept d a x hx
+    obtain ⟨z, hz, hzp, hzor⟩ := ih (dictSet d a) y hy
+    refine ⟨z, hz, hzp.trans hyp, ?_⟩
+    rcases hzor with rfl | hzr
+    · rcases hor with rfl | rfl
+      · exact Or.inl rfl
+      · exact Or.inr (by simp)
+    · exact Or.inr (List.mem_cons_of_mem _ hzr)
+
+/-- after `import_antibodies(abs)` every imported pattern text is the key of an active learned signature, and
+    that signature is one of the imported ones (the last with that text) -/
+theorem foldl_dictSet_imported (abs : List Sig) : ∀ (d : List Sig) (ab : Sig), ab ∈ abs →
+    ∃ y ∈ abs.foldl dictSet d, y.pat = ab.pat ∧ y ∈ abs := by
+  induction abs with
+  | nil => intro d ab h; simp at h
+  | cons a rest ih =>
+    intro d ab hab
+    rcases List.mem_cons.mp hab with rfl | hr
+    · obtain ⟨z, hz, hzp, hzor⟩ := foldl_dictSet_key_kept rest (dictSet d ab) ab (mem_dictSet_self d ab)
+      refine ⟨z, hz, hzp, ?_⟩
+      rcases hzor with rfl | h
+      · simp
+      · exact List.mem_cons_of_mem _ h
+    · obtain ⟨y, hy, hyp, hym⟩ := ih (dictSet d a) ab hr
+      exact ⟨y, hy, hyp, List.mem_cons_of_mem _ hym⟩
+
+theorem mstep_sigs_mono (env : Env) (st : MSt) (op : MOp) (s : Sig) (hs : s ∈ st.m.sigs) :
+    s ∈ (mstep env st op).1.m.sigs := by
+  cases op with
+  | filter c =>
+    obtain ⟨r, -, -, -, hsig, -⟩ := filter_spec env st.m st.now c
+    simp only [mstep]; rw [hsig]; exact hs
+  | learn x =>
+    simp only [mstep, Membrane.learn]
+    split
+    · split <;> exact hs
+    · exact hs
+  | addSig x => simp [mstep, Membrane.addSig, hs]
+  | forget p => exact hs
+  | importAb abs => exact hs
+  | setThr t => exact hs
+  | clearAudit => exact hs
+  | adv d => exact hs
+
+theorem mrun_sigs_mono (env : Env) (ops : List MOp) : ∀ (st : MSt) (s : Sig), s ∈ st.m.sigs →
+    s ∈ (mrun env st ops).1.m.sigs := by
+  induction ops with
+  | nil => intro st s hs; exact hs
+  | cons op ops ih =>
+    intro st s hs
+    simp only [mrun]
+    exact ih _ s (mstep_sigs_mono env st op s hs)
+
 /-! ### innate immunity -/
 
 /-! ### innate immunity -/
